@@ -23,7 +23,7 @@ for sid in sorted(os.listdir(os.path.join(ROOT, 'seeded'))):
             break
     note = m.get('strengthening', '')
     rows.append('| %s | %s | %s | %s | %s | %s |' % (sid, title, needs, ', '.join(first_det) or 'missed', ', '.join(det) or '**missed**', (note + ' ' if note else '') + msg))
-hdr = ['Independent sub-agents were given only the text of one property and a scratch worktree of /repo; each produced two changes that break the property,',
+hdr = ['Independent sub-agents were given only the text of one property and a scratch worktree of /repo; each produced two (first round) or three (rounds b and c, which were also told which ideas had been tried) changes that break the property,',
        'compile, and pass the 805 existing tests, with a demonstration program. Every change below was confirmed in a scratch worktree (demonstration passes on the',
        'unchanged headers, fails with the change; the existing suite passes with the change) by `tools/confirm_seed.py` and is kept under `seeded/<id>/`.',
        '"first run" = which quick checks reported a violation when the change was first tried; "final" = after the strengthening described in the last column',
